@@ -154,4 +154,18 @@ CHECKS = {
             dict(name="bytes-js", run="^TestBytes$", quick=300, thorough=3000, shards=1, js=True, env={"VERIF_WATCHDOG_MS": "3000", "VERIF_LEG_SUFFIX": "-js"}, timeout_quick=300),
         ],
     ),
+    "C18": dict(
+        pkg="c18", level="exploration",
+        rule=("sequences of <=8 calls over keys {a,b,c}: Get, GetHandler, Set (incl. delete), SetHandler with handlers that succeed / return an error / call txn.Abort() / both, and Commit or Abort finishing a transaction (several "
+              "transactions per sequence, each finished at most once by the caller), on the in-memory store's real transactions (verif hook) and on the serial fallback over a plain map store. Map model: Commit returns one result per call, "
+              "in call order, ids equal to the ids the calls returned and never reused; each Get returns the value of earlier Sets of this and of earlier transactions (ErrNotExist if none); a handler error becomes that op's Err; calls after an "
+              "abort change nothing; afterwards a fresh transaction opens and commits within the watchdog and the store read back directly equals the model. isolation leg: 1-3 writer and 1-3 reader transactions parked inside handlers by the harness: "
+              "never two inside at once, no torn read, no torn final state. non-trivial = >=3 calls with >=1 Set; every isolation case"),
+        assumptions=["what Commit returns for an aborted transaction is not pinned (only that the store is unchanged by later calls and stays usable)", "a second explicit Commit/Abort by the caller is API misuse and not generated"],
+        legs=[
+            dict(name="mem", run="^TestMemTxn$", quick=2000, thorough=20000, shards=4),
+            dict(name="serial", run="^TestSerialTxn$", quick=2000, thorough=20000, shards=4),
+            dict(name="isolation", run="^TestIsolation$", quick=100, thorough=1000, shards=4),
+        ],
+    ),
 }
